@@ -25,6 +25,11 @@ theorem encode_decode_unordered_counterexample :
     decode (encodeTokens [⟨0, 5, 1, 0, 0⟩, ⟨0, 3, 1, 0, 0⟩])
       = [⟨0, 5, 1, 0, 0⟩, ⟨0, 4294967299, 1, 0, 0⟩] := by decide
 
+/-- Non-vacuity: the real tokens of a two-line journal are in document order. -/
+example : weaklyOrdered ((tokenize Classes.ascii W.cleanToks).map absOf) = true ∧
+    decode (encodeTokens (tokenize Classes.ascii W.cleanToks))
+      = (tokenize Classes.ascii W.cleanToks).map absOf := by decide +kernel
+
 /-! ## 2. Range requests -/
 
 /-- A range request returns the full result restricted to the requested lines
@@ -45,6 +50,10 @@ theorem range_is_restriction (ts : List SemToken) (lo hi : UInt32)
   simp only [filterByRange, restrict, List.filter_map]
   congr 1
 
+/-- Non-vacuity: line 1 of the two-line journal — 6 of its 13 tokens. -/
+example : (decode (encodeTokens (filterByRange 1 1 (tokenize Classes.ascii W.cleanToks)))).length = 6 := by
+  decide +kernel
+
 /-! ## 3. Edits -/
 
 /-- Applying the computed edits to the old array yields the new array, for all arrays the
@@ -59,6 +68,9 @@ theorem computeEdits_wraps (old new : Data) (h : old.length = 2 ^ 32) (hne : old
     applyEdits old (computeEdits old new) = new ++ old := by
   have : (old == new) = false := by simpa using hne
   simp [computeEdits, this, applyEdits_single, applyEdit, u32, h]
+
+example : applyEdits [1, 2, 3, 4, 5] (computeEdits [1, 2, 3, 4, 5] [9, 9, 9, 9, 9, 0, 0, 0, 0, 0])
+    = [9, 9, 9, 9, 9, 0, 0, 0, 0, 0] := computeEdits_correct _ _ (by decide)
 
 /-! ## 4. Histories: the client's array always equals the full result
 
@@ -193,6 +205,30 @@ theorem covers_lexeme_partial (cls : Classes) (text : Bytes) (toks : List Token)
 /-- The provenance list is the token list. -/
 theorem tokenizeSrc_fst (cls : Classes) (toks : List Token) :
     (tokenizeSrc cls toks).map (·.1) = tokenize cls toks := tokGoSrc_fst cls {} toks
+
+/-- Consequently the client decodes exactly the server's tokens (the guard of `encode_decode`
+    holds for every lexer output that is `spacedB`). -/
+theorem encode_decode_tokenize_partial (cls : Classes) (toks : List Token)
+    (hs : spacedB cls toks = true) :
+    decode (encodeTokens (tokenize cls toks)) = (tokenize cls toks).map absOf := by
+  have hs' : (mappedBody toks).all (tokBounds cls) = true ∧ chainB cls (mappedBody toks) = true := by
+    simpa [spacedB] using hs
+  have ho := (tokGo_ordered cls {} toks 0 0 hs'.1 hs'.2 (by
+      cases mappedBody toks with
+      | nil => trivial
+      | cons t r => simp only [Bound]; omega)).1
+  exact encode_decode _ (orderedDisjoint_weakly _ ho)
+
+/-- **Tags.**  Whatever the comment: every tag token is cut out exactly around `name:` for a
+    name accepted by `isValidTagName`, every tag value token around a non-empty string (byte
+    spans of the comment's value; where they land in the document is the business of the
+    deviations `devTagBytes`, `devTagSkippedPart`, `devNonBmpBefore`), and the spans are in
+    increasing order, disjoint and inside the comment. -/
+theorem tag_spans_wellformed (cls : Classes) (comment : Bytes) :
+    (∀ sp ∈ extractSpans cls comment, SpanContent cls comment sp) ∧
+    ∃ hi, hi ≤ comment.length ∧ SpansFrom 0 (extractSpans cls comment) hi :=
+  ⟨extractSpans_content cls comment,
+   let ⟨hi, h1, h2, _⟩ := extractSpans_spec cls comment; ⟨hi, h1, h2⟩⟩
 
 /-! ### Non-vacuity: a real lexer output that satisfies all hypotheses
     (`2024-01-15 * payee ; k:v, n: w` / `    a:b  $1 @ 2 EUR`, 13 tokens, 4 of them tags). -/
